@@ -34,6 +34,19 @@ def chachaOp (N : Nat) (s : CS) (op : String) : Option (String × CS) :=
       let (child, parent) := Block.split C s
       let (a, _) := nextN C 8 child
       some ("s:" ++ toString (leNat a), parent)
+  | ["clone32"] =>
+      let (a, c) := nextN C 4 s
+      let (b, _) := nextN C 4 c
+      some ("c:" ++ toString (leNat a) ++ ":" ++ toString (leNat b), s)
+  | ["split32"] =>
+      let (child, parent) := Block.split C s
+      let (a, _) := nextN C 4 child
+      some ("s:" ++ toString (leNat a), parent)
+  | ["clonef", n] => n.toNat?.map fun n => let (b, _) := Block.fill C n s; ("cb:" ++ hexBytes b, s)
+  | ["splitf", n] => n.toNat?.map fun n =>
+      let (child, parent) := Block.split C s
+      let (b, _) := Block.fill C n child
+      ("sb:" ++ hexBytes b, parent)
   | ["fill", n] => n.toNat?.map fun n => let (b, s') := Block.fill C n s; ("b:" ++ hexBytes b, s')
   | _ => none
 
